@@ -1,0 +1,234 @@
+//! Instrumented `Mutex` / `MutexGuard` for lock-order verification.
+//!
+//! This module is compiled only with `RUSTFLAGS="--cfg vls_verif"`; without that flag the
+//! prelude re-exports `std::sync::{Mutex, MutexGuard}` exactly as before and nothing in here
+//! exists.  The wrapper delegates every operation to a `std::sync::Mutex` and additionally
+//! reports what happens to a process-wide observer that a verification harness may install
+//! with [`set_lock_hook`]:
+//!
+//! * `Attempt`   - a thread is about to block in `lock()`,
+//! * `Acquired`  - `lock()` returned,
+//! * `TryAcquired` / `TryFailed` - outcome of `try_lock()`,
+//! * `Released`  - the guard is being dropped (reported just before the real unlock),
+//! * `Read` / `Write` - the protected value is reached through the guard (`Deref` / `DerefMut`).
+//!
+//! The observer runs synchronously on the locking thread, so it may also park the thread
+//! (a pause point) in order to steer two threads into a chosen interleaving.
+//!
+//! The lock *class* is the type name of the protected value (or a label registered with
+//! [`Mutex::set_label`]), the *instance* is a process-unique number assigned when the mutex
+//! is first used.  With no observer installed the only overhead is one relaxed atomic load
+//! per operation.
+
+use core::fmt;
+use core::ops::{Deref, DerefMut};
+use std::sync::atomic::{AtomicBool, AtomicU64, Ordering};
+use std::sync::{
+    self, Arc, LockResult, OnceLock, PoisonError, RwLock, TryLockError, TryLockResult,
+};
+
+/// What is being reported
+#[derive(Clone, Copy, Debug, PartialEq, Eq, Hash)]
+pub enum LockEventKind {
+    /// about to call the blocking `lock()` of the underlying mutex
+    Attempt,
+    /// the blocking `lock()` returned (also when the mutex was poisoned)
+    Acquired,
+    /// `try_lock()` succeeded
+    TryAcquired,
+    /// `try_lock()` did not get the lock
+    TryFailed,
+    /// the guard is being dropped
+    Released,
+    /// shared access to the protected value through the guard
+    Read,
+    /// mutable access to the protected value through the guard
+    Write,
+}
+
+/// One report to the observer
+#[derive(Clone, Copy, Debug)]
+pub struct LockEvent {
+    /// what happened
+    pub kind: LockEventKind,
+    /// type name of the protected value, or the registered label
+    pub class: &'static str,
+    /// process-unique instance number of the mutex (assigned at first use, never 0)
+    pub id: u64,
+}
+
+/// The observer type
+pub type LockHook = dyn Fn(&LockEvent) + Send + Sync;
+
+static HOOK_SET: AtomicBool = AtomicBool::new(false);
+static HOOK: RwLock<Option<Arc<LockHook>>> = RwLock::new(None);
+static NEXT_ID: AtomicU64 = AtomicU64::new(1);
+
+/// Install (or, with `None`, remove) the process-wide observer.
+pub fn set_lock_hook(hook: Option<Arc<LockHook>>) {
+    let mut slot = HOOK.write().unwrap_or_else(|e| e.into_inner());
+    HOOK_SET.store(hook.is_some(), Ordering::SeqCst);
+    *slot = hook;
+}
+
+#[inline]
+fn report<T: ?Sized>(m: &Mutex<T>, kind: LockEventKind) {
+    if !HOOK_SET.load(Ordering::Relaxed) {
+        return;
+    }
+    // take a reference out of the slot first: the observer may block for a long time
+    let hook = HOOK.read().unwrap_or_else(|e| e.into_inner()).clone();
+    if let Some(h) = hook {
+        h(&LockEvent { kind, class: m.class(), id: m.id() });
+    }
+}
+
+/// A `std::sync::Mutex` that reports its use, see the module documentation.
+pub struct Mutex<T: ?Sized> {
+    id: AtomicU64,
+    label: OnceLock<&'static str>,
+    inner: sync::Mutex<T>,
+}
+
+/// The guard of the instrumented [`Mutex`]
+#[must_use = "if unused the Mutex will immediately unlock"]
+pub struct MutexGuard<'a, T: ?Sized + 'a> {
+    owner: &'a Mutex<T>,
+    inner: sync::MutexGuard<'a, T>,
+}
+
+impl<T> Mutex<T> {
+    /// See `std::sync::Mutex::new`
+    pub const fn new(t: T) -> Mutex<T> {
+        Mutex { id: AtomicU64::new(0), label: OnceLock::new(), inner: sync::Mutex::new(t) }
+    }
+
+    /// See `std::sync::Mutex::into_inner`
+    pub fn into_inner(self) -> LockResult<T> {
+        self.inner.into_inner()
+    }
+}
+
+impl<T: ?Sized> Mutex<T> {
+    /// The process-unique instance number (assigned on first use)
+    pub fn id(&self) -> u64 {
+        let cur = self.id.load(Ordering::Relaxed);
+        if cur != 0 {
+            return cur;
+        }
+        let fresh = NEXT_ID.fetch_add(1, Ordering::Relaxed);
+        match self.id.compare_exchange(0, fresh, Ordering::SeqCst, Ordering::SeqCst) {
+            Ok(_) => fresh,
+            Err(other) => other,
+        }
+    }
+
+    /// The lock class: the registered label, else the type name of the protected value
+    pub fn class(&self) -> &'static str {
+        match self.label.get() {
+            Some(l) => l,
+            None => core::any::type_name::<T>(),
+        }
+    }
+
+    /// Register a class label for this instance (first registration wins)
+    pub fn set_label(&self, label: &'static str) {
+        let _ = self.label.set(label);
+    }
+
+    fn wrap<'a>(&'a self, inner: sync::MutexGuard<'a, T>) -> MutexGuard<'a, T> {
+        MutexGuard { owner: self, inner }
+    }
+
+    /// See `std::sync::Mutex::lock`
+    pub fn lock(&self) -> LockResult<MutexGuard<'_, T>> {
+        report(self, LockEventKind::Attempt);
+        let res = self.inner.lock();
+        report(self, LockEventKind::Acquired);
+        match res {
+            Ok(g) => Ok(self.wrap(g)),
+            Err(p) => Err(PoisonError::new(self.wrap(p.into_inner()))),
+        }
+    }
+
+    /// See `std::sync::Mutex::try_lock`
+    pub fn try_lock(&self) -> TryLockResult<MutexGuard<'_, T>> {
+        match self.inner.try_lock() {
+            Ok(g) => {
+                report(self, LockEventKind::TryAcquired);
+                Ok(self.wrap(g))
+            }
+            Err(TryLockError::Poisoned(p)) => {
+                report(self, LockEventKind::TryAcquired);
+                Err(TryLockError::Poisoned(PoisonError::new(self.wrap(p.into_inner()))))
+            }
+            Err(TryLockError::WouldBlock) => {
+                report(self, LockEventKind::TryFailed);
+                Err(TryLockError::WouldBlock)
+            }
+        }
+    }
+
+    /// See `std::sync::Mutex::is_poisoned`
+    pub fn is_poisoned(&self) -> bool {
+        self.inner.is_poisoned()
+    }
+
+    /// See `std::sync::Mutex::get_mut`
+    pub fn get_mut(&mut self) -> LockResult<&mut T> {
+        self.inner.get_mut()
+    }
+}
+
+impl<T> From<T> for Mutex<T> {
+    fn from(t: T) -> Self {
+        Mutex::new(t)
+    }
+}
+
+impl<T: Default> Default for Mutex<T> {
+    fn default() -> Mutex<T> {
+        Mutex::new(Default::default())
+    }
+}
+
+impl<T: ?Sized + fmt::Debug> fmt::Debug for Mutex<T> {
+    fn fmt(&self, f: &mut fmt::Formatter<'_>) -> fmt::Result {
+        fmt::Debug::fmt(&self.inner, f)
+    }
+}
+
+impl<T: ?Sized> Deref for MutexGuard<'_, T> {
+    type Target = T;
+
+    fn deref(&self) -> &T {
+        report(self.owner, LockEventKind::Read);
+        self.inner.deref()
+    }
+}
+
+impl<T: ?Sized> DerefMut for MutexGuard<'_, T> {
+    fn deref_mut(&mut self) -> &mut T {
+        report(self.owner, LockEventKind::Write);
+        self.inner.deref_mut()
+    }
+}
+
+impl<T: ?Sized> Drop for MutexGuard<'_, T> {
+    fn drop(&mut self) {
+        // reported before the fields (and with them the real guard) are dropped
+        report(self.owner, LockEventKind::Released);
+    }
+}
+
+impl<T: ?Sized + fmt::Debug> fmt::Debug for MutexGuard<'_, T> {
+    fn fmt(&self, f: &mut fmt::Formatter<'_>) -> fmt::Result {
+        fmt::Debug::fmt(&*self.inner, f)
+    }
+}
+
+impl<T: ?Sized + fmt::Display> fmt::Display for MutexGuard<'_, T> {
+    fn fmt(&self, f: &mut fmt::Formatter<'_>) -> fmt::Result {
+        fmt::Display::fmt(&*self.inner, f)
+    }
+}
